@@ -125,6 +125,7 @@ package disk
 //@   ensures keys_same: forall k string :: ((k in s.blobs) <==> old(k in s.blobs)) && s.blobs[k] == old(s.blobs[k])
 //@   ensures most_recent: old(key in s.blobs) && inscope(s.blobs[key], scope) && s.blobs[key].node != nil ==> (forall e *list.Element :: e.list == s.evictQueue ==> e.rank <= s.blobs[key].node.rank)
 //@   ensures size_same: s.size == old(s.size)
+//@   ensures rejected_is_no_use: !old(key in s.blobs) || !inscope(s.blobs[key], scope) ==> (forall e *list.Element :: e.rank == old(e.rank) && e.list == old(e.list))
 //@   ensures no_handle: result1 != nil ==> result0 == nil
 
 //@ func store.Has
